@@ -39,6 +39,7 @@ def run(ctx: Context) -> None:
     ctx.rule(c12.sample_rules)
     # the label of a batch is recorded together with its samples (same commit region, after the user code ran): C02-R2
     ctx.rule(c02.r2_aligned, v)
+    ctx.rule(restored_records_identity)
     ctx.rule(r3_persisted)
     ctx.rule(r3b_write_order)
     # the stored labels are those of this run only: the results table is rewritten whole, never appended to what the folder held (C04-R4)
@@ -368,3 +369,17 @@ def r4_no_stale_cache(ctx: Context) -> None:
         for x in walk_scope(f2.node):
             if isinstance(x, ast.Assign) and isinstance(x.targets[0], ast.Subscript) and isinstance(x.targets[0].value, ast.Name) and x.targets[0].value.id in consts:
                 ctx.fail("R4.no-stale-cache", f"plot_results.{f2.name}:module-cache:{x.targets[0].value.id}", f"`{src(x)[:70]}` caches checkpoint content in module-level `{x.targets[0].value.id}`", f2, x)
+
+
+def restored_records_identity(ctx: Context) -> None:
+    """After a restore label i still belongs to sample i: every per-sample record (parameters, losses, series, batch index, sampler id) comes back through
+    the persistence chain unchanged - the field-plumbing rule of C04 (R1), kept to the per-sample fields (what C04 says about the other fields, including
+    its known findings, is C04's business)."""
+    from . import c04
+    from ..persist import Plumbing
+    fields = ("params_samp", "losses_samp", "series_samp", "batch_num_samp", "method_samp")
+    before, n_obl = len(ctx.findings), len(ctx.obligations)
+    c04.r1_plumbing(ctx, Plumbing(ctx.prog))
+    keep = [f for f in ctx.findings[before:] if any(fl in f.key for fl in fields)]
+    ctx.findings[before:] = keep
+    ctx.obligations[n_obl:] = [o for o in ctx.obligations[n_obl:] if o["verdict"] != "violated" or any(fl in o["key"] for fl in fields)]
